@@ -46,7 +46,7 @@ def verify_function(world: World, lib: SpecLib | None, c: Contract, timeout_ms: 
         res.status = "trusted"
         return res
     try:
-        mod, fn = extract.get_function(c.fn, c.def_index)
+        mod, fn = c.source if c.source is not None else extract.get_function(c.fn, c.def_index)
         res.src_sha = mod.sha256
         res.fn_hash = extract.fn_hash(fn)
         machine_box: list[Machine] = []
